@@ -842,6 +842,237 @@ def delay_sweep(ctx, st):
                                                 "max_residual_rel_peak (bound 0.02)": w2}
 
 
+# --------------------------------------------------------------------------
+# round 2: axis spellings / shift containers / memory layouts
+# --------------------------------------------------------------------------
+def axis_spelling_check(ctx, st):
+    """Per-trace shifts on non-square 2-D arrays (including ntr == n//2 + 1, where a shift vector laid
+    along the wrong axis still broadcasts), every spelling of the axis (python / NumPy integers,
+    negative), shift vector as 1-D array, column, row, integer array; C-, F-ordered and strided inputs."""
+    from ibldsp import fourier
+    rng = ctx.rng
+    lengths = [4, 8, 16, 30, 31, 45] + [rng.randrange(5, 80) for _ in range(6 if not ctx.thorough() else 30)]
+    for n in lengths:
+        for ntr in sorted({n // 2 + 1, 3, rng.randrange(1, 7)}):
+            dt = rng.choice(["f64", "f32"])
+            X = np.array([rng.randrange(-100, 101) for _ in range(ntr * n)], dtype=DT[dt]).reshape(ntr, n)
+            sv = np.array([gen_shift(rng, n, rng.choice(["int", "frac"])) for _ in range(ntr)], dtype=float)
+            try:
+                ref = np.stack([fourier.fshift(np.ascontiguousarray(X[i]), float(sv[i])) for i in range(ntr)])
+            except Exception as e:  # noqa
+                ctx.fail("fshift raised %r" % (e,), {"kind": "axis", "n": n}, {"kind": "exception"})
+                continue
+            layouts = {"C": X, "F": np.asfortranarray(X),
+                       "strided": np.repeat(X, 2, axis=1)[:, ::2], "transposed_view": None}
+            for lname, arr in layouts.items():
+                for ax_name, ax, use_t in (("1", 1, False), ("-1", -1, False), ("np.int64(1)", np.int64(1), False),
+                                           ("np.int32(-1)", np.int32(-1), False), ("0", 0, True), ("-2", -2, True),
+                                           ("np.int64(0)", np.int64(0), True), ("np.int16(-2)", np.int16(-2), True)):
+                    if lname == "transposed_view":
+                        A = X.T if use_t else np.ascontiguousarray(X.T).T
+                    else:
+                        A = np.ascontiguousarray(arr.T) if use_t and lname == "C" else (arr.T.copy(order="F") if use_t else arr)
+                    for sname, svv in (("1d", sv), ("column" if not use_t else "row",
+                                                   sv.reshape(-1, 1) if not use_t else sv.reshape(1, -1)),
+                                       ("wrong_orientation", sv.reshape(1, -1) if not use_t else sv.reshape(-1, 1))):
+                        if sname != "1d" and lname not in ("C",):
+                            continue
+                        desc = {"kind": "axis", "n": n, "ntr": ntr, "dtype": dt, "axis": ax_name, "layout": lname,
+                                "shift_form": sname, "x": X.ravel().tolist(), "svec": sv.tolist()}
+                        before = A.copy()
+                        y = call(ctx, st, "fshift", lambda: fourier.fshift(A, svv, axis=ax), desc, {"clause": "per_trace"})
+                        if y is None or not shape_ok(ctx, y, A, desc):
+                            continue
+                        st.count("axis_%s" % ("first" if use_t else "last"))
+                        st.nontrivial.add(("axis", n, ntr, ax_name, lname, sname))
+                        if not np.array_equal(A, before):
+                            ctx.fail("real input array modified by fshift", desc, {"clause": "input_untouched"})
+                        ok, err = close(y.T if use_t else y, ref, dt, 100.0)
+                        if not ok:
+                            ctx.fail("per-trace shifts with axis=%s (%s layout, shifts as %s): traces are not shifted "
+                                     "with their own shift (max err %.3g)" % (ax_name, lname, sname, err), desc,
+                                     {"clause": "per_trace"})
+    # documented, outside the property (dtype float32/float64, real input, ndarray shifts): recorded, not judged
+    obs = {}
+    try:
+        obs["integer_dtype_input_truncates"] = fourier.fshift(np.array([3, 1, 0, 0]), 1).tolist()
+    except Exception as e:  # noqa
+        obs["integer_dtype_input_truncates"] = repr(e)
+    try:
+        W = scipy.fft.rfft(np.array([1., 2, 3, 4]))
+        W0 = W.copy()
+        R = fourier.fshift(W, 1, ns=4)
+        obs["complex_input_modified_in_place"] = bool(R is W and not np.allclose(W, W0))
+    except Exception as e:  # noqa
+        obs["complex_input_modified_in_place"] = repr(e)
+    for nm, v in (("list", [1., 2., 3.]), ("tuple", (1., 2., 3.)), ("0-d array on 3 traces", np.array(1.5))):
+        try:
+            fourier.fshift(np.zeros((3, 4)), v)
+            obs["shifts_as_%s" % nm] = "accepted"
+        except Exception as e:  # noqa
+            obs["shifts_as_%s" % nm] = type(e).__name__
+    ctx.measurements["observations_outside_property"] = obs
+
+
+# --------------------------------------------------------------------------
+# round 2: fshift(W, s, ns=n) on a complex half spectrum, vs the model (op 5)
+# --------------------------------------------------------------------------
+def freq_check(ctx, st):
+    from ibldsp import fourier
+    rng = ctx.rng
+    cases = []
+    for n in list(range(2, 21)) + [rng.randrange(21, 64) for _ in range(6)]:
+        for _ in range(2):
+            h = n // 2 + 1
+            W = [(rng.randrange(-50, 51), rng.randrange(-50, 51)) for _ in range(h)]
+            cases.append({"kind": "freq", "n": n, "W": W, "s": gen_shift(rng, n, rng.choice(["int", "frac"]))})
+    inputs = [[5, c["n"]] + [v for z in c["W"] for v in z] + enc_complex(phase_table(c["n"], c["s"])) for c in cases]
+    outs = common.Extracted(PROP, "Run").run_many(inputs, nproc=2)
+    for c, o in zip(cases, outs):
+        st.evals += 1
+        st.count("freq_entry_model")
+        W = np.array([complex(a, b) for a, b in c["W"]])
+        try:
+            R = fourier.fshift(W.copy(), c["s"], ns=c["n"])
+            x = scipy.fft.irfft(W, c["n"])
+            back = scipy.fft.irfft(fourier.fshift(scipy.fft.rfft(x), c["s"], ns=c["n"]), c["n"])
+            direct = fourier.fshift(x, c["s"])
+        except Exception as e:  # noqa
+            ctx.fail("fshift(complex, ns=) raised %r" % (e,), c, {"kind": "exception", "fn": "fshift_ns"})
+            continue
+        if not o or o[0] != 1 or len(o) != 1 + 2 * len(W):
+            ctx.disagree("model refuses a frequency-domain input the implementation accepts", c)
+            continue
+        m = np.array(o[1::2][0:0] or [complex(o[1 + 2 * k], o[2 + 2 * k]) for k in range(len(W))]) / OUTSC
+        st.nontrivial.add(("freq", c["n"], c["s"]))
+        if R.shape != W.shape or not np.iscomplexobj(R) or np.max(np.abs(R - m)) > 1e-9 * 100:
+            ctx.disagree("fshift(W, s, ns=n) differs from the model's W*phase (max %.3g)" % float(np.max(np.abs(R - m))), c)
+        if np.max(np.abs(back - direct)) > 1e-9 * 100:
+            ctx.fail("irfft(fshift(rfft(x), s, ns=n), n) != fshift(x, s) (max %.3g)" % float(np.max(np.abs(back - direct))),
+                     c, {"clause": "complex_entry"})
+    ctx.coverage["model_evaluations_extracted"] = ctx.coverage.get("model_evaluations_extracted", 0) + len(inputs)
+
+
+# --------------------------------------------------------------------------
+# round 2: get_apf_from2spikes (cross spectrum) vs the model (op 6)
+# --------------------------------------------------------------------------
+def cross_check(ctx, st):
+    from ibldsp import fourier, waveforms
+    rng = ctx.rng
+    cases = []
+    for n in list(range(2, 17)) + [rng.randrange(17, 40) for _ in range(4)]:
+        x = [rng.randrange(-20, 21) for _ in range(n)]
+        m = rng.randrange(-n + 1, n)
+        cases.append({"kind": "cross", "n": n, "x": x, "y": np.roll(x, m).tolist(), "roll": m})
+        cases.append({"kind": "cross", "n": n, "x": x, "y": [rng.randrange(-20, 21) for _ in range(n)], "roll": None})
+    inputs = [[6, c["n"]] + c["x"] + c["y"] + enc_complex(twiddles(c["n"])) for c in cases]
+    outs = common.Extracted(PROP, "Run").run_many(inputs, nproc=2)
+    for c, o in zip(cases, outs):
+        st.evals += 1
+        st.count("cross_spectrum_model")
+        n = c["n"]
+        x, y = np.array(c["x"], dtype=float), np.array(c["y"], dtype=float)
+        try:
+            amp, phase, fsc = waveforms.get_apf_from2spikes(x, y, 30000.0)
+        except Exception as e:  # noqa
+            ctx.fail("get_apf_from2spikes raised %r" % (e,), c, {"kind": "exception", "fn": "get_apf_from2spikes"})
+            continue
+        m = np.array([complex(o[2 * k], o[2 * k + 1]) for k in range(n // 2 + 1)]) / 1048576.0
+        scale = max(1.0, float(np.max(np.abs(m))))
+        st.nontrivial.add(("cross", n, tuple(c["x"]), tuple(c["y"])))
+        if len(amp) != n // 2 + 1 or np.max(np.abs(amp * np.exp(1j * phase) - m)) > 1e-9 * scale * 1000:
+            ctx.disagree("get_apf_from2spikes: amp*exp(i*phase) differs from the model's rfft(x)*conj(rfft(y))", c)
+        if c["roll"] is not None:
+            # theorem C07_cross_spectrum_of_shifted_copy: bins strictly between DC and Nyquist carry
+            # |X_k|^2 * conj(p_k) = |X_k|^2 e^{+2 pi i k m / n}
+            k = np.arange(n // 2 + 1)
+            exp = np.abs(np.fft.rfft(x)) ** 2 * np.exp(2j * np.pi * k * c["roll"] / n)
+            sel = (k > 0) & (2 * k < n)
+            if np.any(sel) and np.max(np.abs((amp * np.exp(1j * phase) - exp)[sel])) > 1e-9 * scale * 1000:
+                ctx.fail("cross spectrum of a signal and its rolled copy is not |X|^2 e^{2 pi i k m/n}", c,
+                         {"clause": "cross_spectrum"})
+    ctx.coverage["model_evaluations_extracted"] = ctx.coverage.get("model_evaluations_extracted", 0) + len(inputs)
+
+
+# --------------------------------------------------------------------------
+# round 2: shift_waveform on integer clusters vs the model (op 7)
+# --------------------------------------------------------------------------
+def gen_clusters(ctx):
+    rng = ctx.rng
+    out = []
+    pulses = ([1, 3, 7, 3, 1], [2, 5, 9, 5, 2], [1, 4, 1], [3, 8, 3])
+    for nt in (list(range(7, 40)) if not ctx.thorough() else list(range(7, 90))):
+        nsp = rng.choice([1, 2, 3, 4, 5, 6])
+        ntr = rng.choice([1, 2, 3])
+        pulse = list(rng.choice(pulses))
+        gains = [rng.choice([1, 2, 3, -4, 5]) for _ in range(ntr)]
+        room = nt - len(pulse)
+        centre = room // 2
+        wf = []
+        for _ in range(nsp):
+            d = rng.choice([0, 0, 1, -1, 2, -2])
+            q = min(max(centre + d, 0), room)
+            base = [0] * q + pulse + [0] * (room - q)
+            wf.append([[g * v for v in base] for g in gains])
+        out.append({"kind": "cluster_int", "nsp": nsp, "ntr": ntr, "nt": nt, "wf": wf})
+    return out
+
+
+def cluster_check(ctx, st, cases=None):
+    from ibldsp import fourier, waveforms
+    cases = cases if cases is not None else gen_clusters(ctx)
+    inputs = [[7, c["nsp"], c["ntr"], c["nt"]] + [v for sp in c["wf"] for row in sp for v in row] for c in cases]
+    outs = common.Extracted(PROP, "Run").run_many(inputs, nproc=4)
+    rc = 0
+    for c, o in zip(cases, outs):
+        st.evals += 1
+        st.count("shift_waveform_model_len_mod4_%d" % (c["nt"] % 4))
+        wav = np.array(c["wf"], dtype=float)
+        try:
+            out, applied = waveforms.shift_waveform(wav.copy())
+        except Exception as e:  # noqa
+            ctx.fail("shift_waveform raised %r" % (e,), c, {"kind": "exception", "fn": "shift_waveform"})
+            rc = 1
+            continue
+        if not o or o[0] != 1:
+            ctx.disagree("shift_waveform model refuses", c)
+            rc = 1
+            continue
+        pos = 2
+        mshift = []
+        for _ in range(c["nsp"]):
+            assert o[pos] == 1 and o[pos + 2] == 1
+            mshift.append(o[pos + 4] / o[pos + 5])
+            pos += 6
+        mshift = np.array(mshift)
+        st.nontrivial.add(("cluster_int", c["nt"], c["nsp"], c["ntr"], tuple(inputs[cases.index(c)][4:20])))
+        if out.shape != wav.shape or np.shape(applied) != (c["nsp"],):
+            ctx.fail("shift_waveform: output shapes %s %s" % (out.shape, np.shape(applied)), c, {"clause": "shape_dtype"})
+            rc = 1
+            continue
+        if np.max(np.abs(applied - mshift)) > 1e-9 * 10:
+            ctx.disagree("shift_waveform: applied shifts %s differ from the model's %s (median template, peak trace %d, "
+                         "-(ipeak - floor(nt/2)))" % (applied.tolist(), mshift.tolist(), o[1]), c)
+            rc = 1
+        exp = np.stack([fourier.fshift(wav[i], float(applied[i])) for i in range(c["nsp"])])
+        if np.max(np.abs(out - exp)) > 1e-9 * 100:
+            ctx.fail("shift_waveform: spike i is not fshift(spike i, shift_i) on all its traces", c, {"clause": "realign"})
+            rc = 1
+        if c["nsp"] >= 1 and all(sp == c["wf"][0] for sp in c["wf"]):
+            if np.max(np.abs(applied)) > 1e-9 or np.max(np.abs(out - wav)) > 1e-9 * 100:
+                ctx.fail("shift_waveform moves the spikes of an already aligned cluster (shifts %s, length %d = %d mod 4)"
+                         % (applied.tolist(), c["nt"], c["nt"] % 4), c, {"clause": "realign", "len_mod4": c["nt"] % 4})
+                rc = 1
+    order = sorted(range(len(inputs)), key=lambda i: len(inputs[i]))[:6]
+    terms = [common.flat_cases_term(i, inputs[i], outs[i]) for i in order]
+    bad = common.coq_mismatches(PROP, HEADER, terms, shard=3) if terms else []
+    for i in bad:
+        ctx.disagree("kernel-evaluated shift_waveform model differs from the extracted model", cases[i])
+    ctx.coverage["model_evaluations_extracted"] = ctx.coverage.get("model_evaluations_extracted", 0) + len(inputs)
+    ctx.coverage["model_evaluations_kernel"] = ctx.coverage.get("model_evaluations_kernel", 0) + len(terms)
+    return rc
+
+
 def roll_correspondence(ctx, st):
     """np.roll (the oracle's reference) against the model's roll_list (the theorems' reference): exact."""
     rng = ctx.rng
@@ -880,6 +1111,10 @@ def run(ctx):
     measure_delay(ctx, st)
     corr_check(ctx, st)
     delay_sweep(ctx, st)
+    axis_spelling_check(ctx, st)
+    freq_check(ctx, st)
+    cross_check(ctx, st)
+    cluster_check(ctx, st)
     samples = [{"shape": c["shape"], "axis": c["axis"], "dtype": c["dtype"], "x": c["x"][:8], "s": c["s"]}
                for c in kept[:: max(1, len(kept) // 6)]]
     st.dist["n_values_oracle"] = len(ns)
